@@ -17,7 +17,9 @@ EXPLANATION = ('The Sedov constructor (energy integrals replaced by symbols: qua
                'weights w_i = d alpha/d eval_i with which the constructor assembles alpha -- integrating both sides over the same v '
                'range gives E(behind the shock) = eblast; (iii) MASS: d/dv [c_j r^j rho (1 - (k+2-omega) v/2)/(j-omega)] = c_j '
                'r^(j-1) rho dr/dv, the exact mass integral of self-similar flow, whose value at the shock is the swept-up mass; (iv) '
-               'closed-form energy and mass of the singular solution.')
+               'closed-form energy and mass of the singular solution; (v) LIMITS: the arguments the constructor really passes to '
+               'scipy.integrate.quad are (efun01 | efun02, inner boundary of the disturbed flow, shock value v2) for every solution type; '
+               '(vi) AHEAD: the whole _run on a 2-point internal table returns rho0 r^(-omega), u = p = e = c = 0 at a point ahead of the shock.')
 BOUNDS = ['gamma sliced; geometry enumerated; omega symbolic on the generic branch, set to the exact special values for the '
           'omega2/omega3/singular branches']
 OUTSIDE = ['quadrature error of scipy.integrate.quad; the fminbound/interp1d inversion back to user radii; the osmall switching band',
@@ -193,6 +195,142 @@ class SedovShockTotals(Obligation):
                 cx.eq('singular: mass behind the shock = initial mass', Ms, M_init)
 
 
+class SedovQuadLimits(Obligation):
+    """the two energy integrals that normalise alpha are taken over exactly the region behind the shock: from the inner boundary
+    of the disturbed flow (origin lambda = 0 of a standard solution: v0 = 2/((k+2-omega) gamma); vacuum boundary of a vacuum
+    solution: vv = 2/(k+2-omega)) to the shock v2 = 4/((k+2-omega)(gamma+1)), in this order, efun01 for eval1 and efun02 for
+    eval2.  The limits are read from the arguments the constructor really passes to scipy.integrate.quad."""
+
+    def __init__(self, geom, gamma):
+        self.geom, self.gamma = geom, gamma
+        self.id = 'C11.limits.g%d.gamma=%s' % (geom, gamma)
+        self.modules = [H.mod(S.SM)]
+        self.extra_shim = S.shim_extra()
+        self.functions = [H.mod(S.SM).Sedov.__init__]
+        self.bounds = 'rho0, eblast, omega symbolic; gamma fixed; every solution type / special singularity = path'
+        self.skip_validation = True
+        self.max_paths = 60
+
+    def build(self, mk):
+        m = H.mod(S.SM)
+        if Mode.symbolic(mk):
+            from symx.engine import current
+            s = S.make(mk, self.geom, self.gamma)
+            calls = [(c[0], c[1], c[2], c[3]) for c in current().notes.get('quad', [])]
+        else:
+            calls = []
+            real = m.sci_int
+
+            class Rec(object):
+                def __getattr__(self, n):
+                    return getattr(real, n)
+
+                def quad(self, f, a, b, **kw):
+                    r = real.quad(f, a, b, **kw)
+                    calls.append((f.__name__, a, b, r[0]))
+                    return r
+            m.sci_int = Rec()
+            try:
+                s = S.make(mk, self.geom, self.gamma)
+            finally:
+                m.sci_int = real
+        res = {'_type': s.solution_type, '_n': len(calls), '_names': [c[0] for c in calls], 'omega': mk('omega'), 'gamma': K(mk, self.gamma)}
+        for i, c in enumerate(calls):
+            res['a%d' % i], res['b%d' % i], res['q%d' % i] = c[1], c[2], c[3]
+        if s.solution_type != 'singular':
+            res['eval1'], res['eval2'] = s.eval1, s.eval2
+        return res
+
+    def domain(self, V):
+        return [T.gt(V('rho0'), T.ZERO), T.gt(V('eblast'), T.ZERO), T.ge(V('omega'), T.ZERO), T.lt(V('omega'), T.const(self.geom))]
+
+    def claims(self, cx):
+        ty = cx['_type']
+        ok = lambda b: (SymBool(T.TRUE if b else T.FALSE) if cx.symbolic else bool(b))
+        if ty == 'singular':
+            cx.true('singular solution: no quadrature', ok(cx['_n'] == 0))
+            return
+        cx.true('two energy integrals: efun01 then efun02 (got %s)' % (cx['_names'],), ok(cx['_names'] == ['efun01', 'efun02']))
+        if cx['_names'] != ['efun01', 'efun02']:
+            return
+        xg2 = self.geom + 2 - cx['omega']
+        g = cx['gamma']
+        inner = 2 / (xg2 * g) if ty == 'standard' else 2 / xg2
+        shock = 4 / (xg2 * (g + 1))
+        for i in (0, 1):
+            cx.eq('%s: lower limit of integral %d = inner boundary of the disturbed flow' % (ty, i + 1), cx['a%d' % i], inner)
+            cx.eq('%s: upper limit of integral %d = shock value v2' % (ty, i + 1), cx['b%d' % i], shock)
+        cx.eq('eval1 = integral of efun01', cx['eval1'], cx['q0'])
+        cx.eq('eval2 = integral of efun02', cx['eval2'], cx['q1'])
+
+
+class SedovAhead(Obligation):
+    """a point ahead of the shock gets the undisturbed initial state rho0 r^(-omega), u = 0, p = 0 (e = 0, c = 0).  The whole _run
+    is executed with an internal table of 2 points (npts=2: the user's largest radius and the origin); fminbound returns a fresh
+    value; interp1d is exact at a table node (the user's point IS the first node) and a fresh value elsewhere."""
+
+    def __init__(self, geom, gamma):
+        self.geom, self.gamma = geom, gamma
+        self.id = 'C11.ahead.g%d.gamma=%s' % (geom, gamma)
+        self.modules = [H.mod(S.SM)]
+        self.functions = [H.mod(S.SM).Sedov._run]
+        self.bounds = 'rho0, eblast, omega, r, t symbolic; gamma fixed; internal table of 2 points; one user point'
+        self.skip_validation = True
+        self.max_paths = 120
+
+    def shim_extra(self):
+        import scipy.optimize as so
+        from symx.engine import current
+        from symx.shim import Recorder
+
+        def fminbound(f, a, b, **kw):
+            return current().fresh('vwant')
+
+        def interp1d(x, y, **kw):
+            xs = [term_of(v) for v in np.asarray(x, dtype=object).ravel()]
+            ys = list(np.asarray(y, dtype=object).ravel())
+
+            def g(q):
+                q = np.asarray(q, dtype=object)
+                out = np.empty(q.shape, dtype=object)
+                for i in range(out.size):
+                    qt = term_of(q.flat[i])
+                    hit = [k for k, xt in enumerate(xs) if xt is qt or xt == qt]
+                    out.flat[i] = ys[hit[0]] if hit else current().fresh('interp')
+                return out
+            return g
+        d = S.shim_extra(cut_at_jump=False)
+        d.update({'sci_opt': H.ModProxy(so, fminbound=fminbound), 'interp1d': interp1d, 'ExactSolution': Recorder})
+        return d
+
+    def build(self, mk):
+        s = S.make(mk, self.geom, self.gamma)
+        r, t = mk('r'), mk('t')
+        if Mode.symbolic(mk):
+            # only the region ahead of the shock is of interest here: restrict the exploration to it with the shock radius
+            # spelled as _run spells it (the claims are guarded by the r2 the code itself computed)
+            from symx.engine import current
+            r2_pre = (s.eblast / (s.alpha * s.rho0)) ** (1.0 / s.xg2) * t ** (2.0 / s.xg2)
+            current().assume(T.gt(term_of(r), term_of(r2_pre)))
+            sol = s._run(H.arr([r]), t, npts=2)
+        else:
+            sol = s(np.array([float(r)]), t)
+        out = H.first(H.fields(sol))
+        out.update(r2=s.r2, r=r, rho0=mk('rho0'), omega=mk('omega'))
+        return out
+
+    def domain(self, V):
+        return S.domain(V, self.geom)
+
+    def claims(self, cx):
+        ahead = (cx['r'] > cx['r2'])
+        if not cx.symbolic:
+            ahead = bool(ahead)
+        cx.eq('ahead of the shock: density = rho0 r^(-omega)', cx['density'], cx['rho0'] * cx['r'] ** (-cx['omega']), when=ahead)
+        for f in ('velocity', 'pressure', 'specific_internal_energy', 'sound_speed'):
+            cx.eq('ahead of the shock: %s = 0' % f, cx[f], 0 * cx['r'], when=ahead)
+
+
 def obligations(tier):
     obs = []
     gams = [Fraction(7, 5)] if tier == 'quick' else [Fraction(7, 5), Fraction(5, 3), Fraction(2)]
@@ -200,6 +338,8 @@ def obligations(tier):
         for gam in gams:
             obs.append(SedovIdentity(j, gam, 'generic'))
             obs.append(SedovShockTotals(j, gam, False))
+            obs.append(SedovQuadLimits(j, gam))
+            obs.append(SedovAhead(j, gam))
             for case in ('omega2', 'omega3'):
                 om = SPECIAL[case](j, Fraction(gam))
                 if 0 <= om < j:
